@@ -99,6 +99,18 @@ def gather_programs(chk):
         if lang.has_dynamic(p["body"]):
             p["src_set"] = "random"
             progs.append(p)
+    # the same multi-line bodies with a comment between every two lines (three comment styles): a comment never changes the value
+    import copy
+    import random as _random
+    multi = [p for p in progs if "\n" in lang.r_body(p["body"])]
+    sw = [p for p in multi if "switch" in lang.r_body(p["body"])]
+    rr = _random.Random(chk.seed + 7)
+    pick = rr.sample(sw, min(len(sw), 120 if quick else 1500)) + rr.sample(multi, min(len(multi), 60 if quick else 800))
+    for n, p in enumerate(pick):
+        q = copy.deepcopy(p)
+        q["cm"] = 1 + n % 3
+        q["src_set"] = "commented"
+        progs.append(q)
     for i, p in enumerate(progs):
         p["id"] = "p%d" % i
     return progs
